@@ -391,7 +391,7 @@ func TestVerifC14(t *testing.T) {
 			}
 		}
 	}
-	// (d) real fractions: every non-empty subset of the age slots of size <= 3 (thorough: all subsets),
+	// (d) real fractions: every non-empty subset of the age slots of size <= 3 or >= 7 (thorough: all subsets),
 	// as one fraction and as two fractions split at every position
 	var layouts []struct {
 		ages   []int64
@@ -405,8 +405,8 @@ func TestVerifC14(t *testing.T) {
 				ages = append(ages, c14AgeSlots[i])
 			}
 		}
-		if !r.Thorough() && len(ages) > 3 {
-			continue
+		if !r.Thorough() && len(ages) > 3 && len(ages) < ns-1 {
+			continue // quick: small subsets, plus the 7- and 8-document ones that span several ID blocks
 		}
 		one := make([]int, len(ages))
 		layouts = append(layouts, struct {
@@ -436,7 +436,7 @@ func TestVerifC14(t *testing.T) {
 	r.Sample(c14Case{Kind: "real", Ages: layouts[len(layouts)/2].ages, Layout: layouts[len(layouts)/2].layout, Form: "reloaded-frac-cache", Query: "*"})
 	ev := r.Get("evaluations")
 	r.Finish(t, "model_checking",
-		fmt.Sprintf("bitmask: all sizes<=%d, all l<=r, all masks for size<=%d and all masks with <=2 bits above; distribution: from in 4 offsets x 0..%d buckets x on/off-bucket end, added MIDs = subsets of size<=3 of a half-bucket grid over [from-2b,to+2b], all ordered query pairs, direct and after JSON round trip (soundness: a MID in range implies intersecting); Info borders; real fractions (scaled block constants): subsets of 8 age slots (25h, 24h+30s, 11min, 10min-1ms, 5min, 61s, 0, -60s) in one or two fractions, three forms (last fraction active / all sealed / reloaded via .frac-cache), queries * and k:a over all ordered pairs of a border grid (document MIDs +-1, occupancy bucket borders, creation time, 0, max) vs reference search over all documents", maxSize, fullMask, nb),
+		fmt.Sprintf("bitmask: all sizes<=%d, all l<=r, all masks for size<=%d and all masks with <=2 bits above; distribution: from in 4 offsets x 0..%d buckets x on/off-bucket end, added MIDs = subsets of size<=3 of a half-bucket grid over [from-2b,to+2b], all ordered query pairs, direct and after JSON round trip (soundness: a MID in range implies intersecting); Info borders; real fractions (scaled block constants: 4 IDs per block, so the 7- and 8-document fractions span 3 ID blocks): subsets (quick: sizes 1-3 and 7-8, thorough: all) of 8 age slots (25h, 24h+30s, 11min, 10min-1ms, 5min, 61s, 0, -60s) in one or two fractions, three forms (last fraction active / all sealed / reloaded via .frac-cache), queries * and k:a over all ordered pairs of a border grid (document MIDs +-1, occupancy bucket borders, creation time, 0, max) vs reference search over all documents", maxSize, fullMask, nb),
 		map[string]any{
 			"states":                        r.DistinctCount("nontrivial"),
 			"transitions":                   ev,
